@@ -208,13 +208,6 @@ Fixpoint upd_nth {A} (k : nat) (f : A -> A) (l : list A) : list A :=
   | O, x :: l' => f x :: l'
   | S k', x :: l' => x :: upd_nth k' f l'
   end.
-Fixpoint remove_nth {A} (k : nat) (l : list A) : list A :=
-  match k, l with
-  | _, [] => []
-  | O, _ :: l' => l'
-  | S k', x :: l' => x :: remove_nth k' l'
-  end.
-
 Definition port_width (p : str) (m : model) : nat :=
   match find_port p (m_ports m) with Some q => p_width q | None => 0 end.
 Definition port_dir (p : str) (m : model) : dir :=
@@ -263,14 +256,25 @@ Fixpoint add_to_wire (k : nat) (pr : pinref) (ws : list wire) : list wire :=
   | S k', w :: ws' => w :: add_to_wire k' pr ws'
   end.
 
-(* EBLIFParser.connect_pin_to_wire in model [m] *)
-Definition connect (pr : pinref) (c : str) (k : nat) (m : model) : result model :=
-  if connected m pr then Error EAssert
-  else Ok (set_cables m
-    (match find_cable c (m_cables m) with
-     | Some _ => upd_cable c (add_to_wire k pr) (m_cables m)
-     | None => m_cables m ++ [mkCable c (add_to_wire k pr [])]
-     end)).
+(* ---------- .conn: wires merged into other wires ---------- *)
+(* a wire of the model under construction, addressed by cable name and position (wires are never
+   removed or reordered while a model is read) *)
+Definition netbit := (str * nat)%type.
+Definition nb_eqb (x y : netbit) : bool := str_eqb (fst x) (fst y) && Nat.eqb (snd x) (snd y).
+
+(* EBLIFParser.merged_wires: (wire that was emptied, wire that took its pins), in insertion order *)
+Definition mtable := list (netbit * netbit).
+
+(* EBLIFParser.merged_into:  while wire in merged_wires: wire = merged_wires[wire].
+   merge_wires enters (k, v) when wire k is emptied into wire v; both are, at that moment, wires that stand
+   for themselves (no keys), and v differs from k.  So a key is entered once, and whatever entry continues a
+   chain (an entry whose key is v) is entered later: the chain from any wire runs through the table in
+   insertion order, and one pass from left to right follows it to its end *)
+Fixpoint merged_into (al : mtable) (x : netbit) : netbit :=
+  match al with
+  | [] => x
+  | (k, v) :: r => if nb_eqb k x then merged_into r v else merged_into r x
+  end.
 
 (* grow a cable to k+1 wires without connecting anything (get_connected_wires) *)
 Fixpoint pad_wires (k : nat) (ws : list wire) : list wire :=
@@ -287,6 +291,19 @@ Definition ensure_wire (c : str) (k : nat) (cs : list cable) : list cable :=
   end.
 Definition wire_at (c : str) (k : nat) (cs : list cable) : wire :=
   match find_cable c cs with Some x => nth k (c_wires x) [] | None => [] end.
+
+Definition set_wire (c : str) (k : nat) (f : wire -> wire) (cs : list cable) : list cable :=
+  upd_cable c (upd_nth k f) cs.
+
+(* EBLIFParser.connect_pin_to_wire in model [m]: the cable is looked up (created, grown) under the
+   name written in the file, the pin goes to the wire that stands for that one after the .conn
+   statements read so far *)
+Definition connect_to (al : mtable) (pr : pinref) (c : str) (k : nat) (m : model) : result model :=
+  if connected m pr then Error EAssert
+  else
+    let cs := ensure_wire c k (m_cables m) in
+    let t := merged_into al (c, k) in
+    Ok (set_cables m (upd_cable (fst t) (add_to_wire (snd t) pr) cs)).
 
 (* the wire a pin sits on: cable name, number of wires of that cable, position *)
 Fixpoint find_wire_pos (pr : pinref) (ws : list wire) (pos : nat) : option nat :=
